@@ -996,8 +996,9 @@ class Staircase(Pbox):
         }
         if ufunc in binary_ops and len(inputs) == 2 and not kwargs:
             forward, reflected = binary_ops[ufunc]
-            if inputs[0] is self:
-                return getattr(self, forward)(inputs[1])
+            if isinstance(inputs[0], Staircase):
+                # two p-boxes: numpy hands the call to the second operand when it is of a subclass (a Leaf)
+                return getattr(inputs[0], forward)(inputs[1])
             return getattr(self, reflected)(inputs[0])
         if len(inputs) != 1 or inputs[0] is not self:
             return NotImplemented
